@@ -28,6 +28,7 @@ type KeyedPRNG struct {
 func NewKeyedPRNG(key []byte) (*KeyedPRNG, error) {
 	var err error
 	prng := new(KeyedPRNG)
+	prng.key = append([]byte{}, key...)
 	prng.xof, err = blake2b.NewXOF(blake2b.OutputLengthUnknown, key)
 	return prng, err
 }
